@@ -221,6 +221,24 @@ def o_policy(rec: Recorder, case, soft=False):
                 return
             if len(model.names) >= 2 and (owner != model.default_scheme(cat) or want_nu):
                 nontrivial = True
+    # the hasher objects the context reports for a category carry that category's policy
+    for cat in cats:
+        st, hs_list = call(ctx.schemes, resolve=True, category=cat)
+        if st == "err" or [x.name for x in hs_list] != list(model.names):
+            rec.fail("C04/schemes-resolve", "schemes(resolve=True, category=..) does not list the configured hashers", "policy", dict(case, category=cat), repr(hs_list)[:120], model.names, soft=soft)
+            return
+        for sch, obj in zip(model.names, hs_list):
+            w = model.rounds_window(sch, model.cat_of(cat))
+            via_handler = ctx.handler(sch, category=cat)
+            for o, label in ((obj, "schemes(resolve=True)"), (via_handler, "handler()")):
+                if w is not None and (o.min_desired_rounds or None, o.max_desired_rounds or None, o.default_rounds) != (w[0] or None, w[1] or None, w[2]):
+                    rec.fail(f"C04/reported-hasher/{label}", f"the hasher reported by {label} for category {cat!r} does not carry that category's cost policy", "policy", dict(case, category=cat, scheme=sch),
+                             (o.min_desired_rounds, o.max_desired_rounds, o.default_rounds), w[:3], soft=soft)
+                    return
+        st, dobj = call(ctx.default_scheme, category=cat, resolve=True)
+        if st == "err" or dobj.name != model.default_scheme(cat):
+            rec.fail("C04/default-scheme-resolve", "default_scheme(resolve=True) is not the category's default hasher", "policy", dict(case, category=cat), repr(dobj)[:80], model.default_scheme(cat), soft=soft)
+            return
     # encrypt() is the documented legacy name of hash()
     for cat in cats:
         dflt = model.default_scheme(cat)
@@ -247,7 +265,10 @@ def o_scheme_flags(rec: Recorder, case, soft=False):
         return
     ctx = CryptContext([scheme, "md5_crypt"], **{f"{scheme}__{k}": v for k, v in policy.items()})
     h = table.handler(scheme).using(**made).hash(PW)
-    if scheme == "scrypt":
+    if scheme == "scram":
+        norm = lambda a: set(a.split(",")) if isinstance(a, str) else set(a)  # noqa: E731
+        want = not norm(made.get("algs", "sha-1,sha-256,sha-512")) >= norm(policy.get("algs", "sha-1,sha-256,sha-512")) or made["rounds"] != policy["rounds"]
+    elif scheme == "scrypt":
         want = made.get("block_size", 8) != policy.get("block_size", 8) or made.get("parallelism", 1) != policy.get("parallelism", 1) or made["rounds"] != policy["rounds"]
     else:
         want = made.get("version", 2) < policy.get("version", 2) or made["rounds"] != policy["rounds"]
@@ -316,6 +337,12 @@ def t_scheme_flags(rec, seed, tier):
             rec.ev()
             rec.nt("scheme-flag", "scrypt", sorted(pol.items()), sorted(made.items()))
             o_scheme_flags(rec, {"scheme": "scrypt", "policy": pol, "made": made}, soft=True)
+            n += 1
+    for pol in ({"rounds": 10}, {"rounds": 10, "algs": "sha-1,sha-256"}, {"rounds": 10, "algs": "sha-1"}, {"rounds": 10, "algs": "sha-1,md5"}):
+        for made in ({"rounds": 10}, {"rounds": 10, "algs": "sha-1"}, {"rounds": 10, "algs": "sha-1,sha-256"}, {"rounds": 10, "algs": "sha-1,sha-256,md5"}, {"rounds": 11, "algs": "sha-1,sha-256"}):
+            rec.ev()
+            rec.nt("scheme-flag", "scram", sorted(pol.items()), sorted(made.items()))
+            o_scheme_flags(rec, {"scheme": "scram", "policy": pol, "made": made}, soft=True)
             n += 1
     for pol in ({"rounds": 4}, {"rounds": 4, "version": 2}, {"rounds": 4, "version": 1}, {"rounds": 5}):
         for made in ({"rounds": 4, "version": 1, "ident": "2a"}, {"rounds": 4, "version": 2}, {"rounds": 4, "version": 1}, {"rounds": 5, "version": 2}):
